@@ -12,7 +12,7 @@ import (
 func init() {
 	Registry["C05"] = C05
 	Metas["C05"] = Meta{
-		Explanation: "Decides the structural clauses of C05 on every path of the compute core under each constant mode (Store/LoadAndStore/LoadAndDelete/Delete, LoadOrStore/LoadOrCompute, Compute): (F1) the user function is called at most once per call including across internal retries, exactly once in the unconditional modes, and in the load-if-exists mode exactly on the returns that report loaded=false and never on those reporting loaded=true; (F2) it is called with the bucket lock held and the post-lock validation passed, told loaded=true only after a key-equality hit and loaded=false only at the end of the chain, and its result is committed before the lock is released; (F3) the API wrappers select the documented mode and LoadOrCompute's adapter calls the user's function exactly once; (F4, cache layer) each get-or-create / read-modify-write method performs its decision inside exactly one Compute of the underlying map, whose closure calls the user's function at most once, only on the not-(loaded and unexpired) outcome. NOT decided: that the lock serialises (C13/C14/C03 decide its shape), schedules.",
+		Explanation: "Decides the structural clauses of C05 on every path of the compute core under each constant mode (Store/LoadAndStore/LoadAndDelete/Delete, LoadOrStore/LoadOrCompute, Compute): (F1) the user function is called at most once per call including across internal retries, exactly once in the unconditional modes, and in the load-if-exists mode exactly on the returns that report loaded=false and never on those reporting loaded=true; (F2) it is called with the bucket lock held and the post-lock validation passed, told loaded=true only after a key-equality hit and loaded=false only at the end of the chain, and its result is committed before the lock is released; (F3) the API wrappers select the documented mode and LoadOrCompute's adapter calls the user's function exactly once; (F4, cache layer) each get-or-create / read-modify-write method decides through an atomic read-modify-write of the underlying map, never mutates unconditionally after an observation, and on every evaluated abstract path calls the user's function at most once (exactly once for Compute) and only inside the read-modify-write closure. NOT decided: that the lock serialises (C13/C14/C03 decide its shape), schedules.",
 		Rule:        "one obligation per (rule, specialisation, exit | call site | wrapper); non-trivial = decided by exploring the product of the CFG with the call-count/lock/validation automaton",
 		Assumptions: []string{"C13 (lock pairing) and C03/C04 (protocol shape) hold", "the mode parameters are compile-time constants at every call site (checked)"},
 	}
